@@ -48,15 +48,15 @@ Fixpoint uniq (v : jv) : bool :=
   end.
 
 Theorem type_reverse_hint (b : B) : type_reverse unb64 [(BANG, JStr (b64 b))] = (JBytes b : jv).
-Proof. unfold type_reverse. rewrite String.eqb_refl, unb64_b64. reflexivity. Qed.
+Proof. unfold type_reverse. cbn [length Nat.eqb negb lookup]. rewrite String.eqb_refl. cbn [b64decode_value]. rewrite unb64_b64. reflexivity. Qed.
 
 Theorem reverse_type_hint (b : B) : reverse_tree unb64 (type_hint b64 b) = (JBytes b : jv).
 Proof. cbn [type_hint reverse_tree map fst snd]. apply type_reverse_hint. Qed.
 
 Lemma type_reverse_plain (kv : list (string * jv)) : is_bang kv = false -> type_reverse unb64 kv = JObj kv.
 Proof.
-  unfold is_bang, type_reverse. destruct kv as [|[k x] [|q t]]; intros H; [reflexivity| |]; destruct x; try reflexivity.
-  rewrite H. reflexivity.
+  unfold is_bang, type_reverse. destruct kv as [|[k x] [|q t]]; intros H; [reflexivity| |reflexivity].
+  cbn [length Nat.eqb negb lookup]. rewrite String.eqb_sym, H. reflexivity.
 Qed.
 
 Lemma map_id_Forall {A} (f : A -> A) (l : list A) : Forall (fun x => f x = x) l -> map f l = l.
